@@ -3,7 +3,7 @@
    and compared numerically by the correspondence run). *)
 From Coq Require Import QArith String.
 From BMC Require Import Base Prim PrimProofs Layers Proc SensorProofs.
-From BMCProps Require Import Tie.
+From BMCProps Require Import TiePrim.
 Local Close Scope Q_scope.
 Local Open Scope N_scope.
 
